@@ -274,7 +274,7 @@ Proof.
 Qed.
 
 (* a table window whose slots from `first` on are cleared is the window of the list cut at that slot *)
-Lemma clear_window (L : list Z) b first last : 0 <= b -> 0 <= first <= last + 1 -> last < 72 -> len L <= b + last + 1 ->
+Lemma clear_window (L : list Z) b first last : 0 <= b -> 0 <= first <= last + 1 -> last < 72 -> (last = 71 \/ len L <= b + last + 1) ->
   FileIO.clear_range (subZ L b 72) first last = subZ (firstn (Z.to_nat (b + first)) L) b 72.
 Proof.
   intros Hb Hf Hl Hend. apply list_ext.
